@@ -84,7 +84,7 @@ func parseOpts(args []string) *options {
 	if v := os.Getenv("VERIF_SEED"); v != "" {
 		o.seed, _ = strconv.Atoi(v)
 	}
-	o.timeout = 10 * time.Second
+	o.timeout = 20 * time.Second
 	if o.tier == "thorough" {
 		o.timeout = 60 * time.Second
 	}
@@ -254,6 +254,37 @@ func solveAll(obls []*Obligation, qdir string, timeout time.Duration) {
 		}(ob)
 	}
 	wg.Wait()
+	// Obligations that timed out are retried with little parallelism and a longer limit: a timeout under
+	// machine load must not turn into an alarm (every claimed obligation closes in ~1 s on an idle machine).
+	var retry []*Obligation
+	for _, ob := range obls {
+		if !ob.Cover && ob.Result.Status == "timeout" {
+			retry = append(retry, ob)
+		}
+	}
+	if len(retry) == 0 {
+		return
+	}
+	long := 6 * timeout
+	if long > 180*time.Second {
+		long = 180 * time.Second
+	}
+	sem2 := make(chan struct{}, 3)
+	var wg2 sync.WaitGroup
+	for _, ob := range retry {
+		wg2.Add(1)
+		go func(ob *Obligation) {
+			defer wg2.Done()
+			sem2 <- struct{}{}
+			defer func() { <-sem2 }()
+			first := ob.Result
+			r := runQuery(qdir, ob.Name+".retry", ob.queryText(), long, false, nil)
+			r.Time += first.Time
+			ob.Result = r
+			ob.Retried = true
+		}(ob)
+	}
+	wg2.Wait()
 }
 
 func loadPropMeta(verif, prop string) PropMeta {
